@@ -279,11 +279,11 @@ def run(m: Model, r: Report, tier: str) -> None:
         raise AnalysisError(f"{f3.qualname}: lookup of the service in a session's table not found")
     for lk in looks:
         key_t, cont_t = ast.unparse(lk.slice), ast.unparse(lk.value)
-        guards = [st for st in f3loops[0].body if isinstance(st, ast.If) and st.lineno < lk.lineno and isinstance(st.test, ast.Compare) and len(st.test.ops) == 1
-                  and ast.unparse(st.test.left) == key_t and ast.unparse(st.test.comparators[0]) == cont_t]
-        r.check(len(guards) == 1 and isinstance(guards[0].test.ops[0], ast.NotIn) and len(guards[0].body) == 1 and isinstance(guards[0].body[0], ast.Continue), "R3",
-                f"{f3.qualname}#lookup-guard", f"`{cont_t}[{key_t}]` must be preceded by `if {key_t} not in {cont_t}: continue` "
-                f"(found: {[ast.unparse(g_.test) + ' -> ' + type(g_.body[0]).__name__ for g_ in guards]})", loc=f3.loc)
+        from sa.util import path_condition as _pcl, norm_conds as _ncl
+        lits_l = _ncl(_pcl(f3.node, lk))
+        r.check((f"{key_t} in {cont_t}", True) in lits_l, "R3", f"{f3.qualname}#lookup-guard",
+                f"`{cont_t}[{key_t}]` is only defined for sessions that offer the service: it must be reached under `{key_t} in {cont_t}` "
+                f"(conditions found: {sorted(t for t, v in lits_l if key_t in t)})", loc=f3.loc)
     # flags by role: set True in the branch `== self.state.session` (active) / after it (other)
     r.check(has_row(t3, ["not _L", "_L"], [], "subFunctionNotSupportedInActiveSession") and
             has_row(t3, ["not _L"], ["_L"], "subFunctionNotSupported") and
